@@ -415,7 +415,7 @@ def call_method(I, recv, name, args, kwargs, fr):
             return VStr(p.fresh_str('fmt'))
         if name == 'join':
             v = args[0]
-            if isinstance(v, (VList, VTuple)):
+            if isinstance(v, (VList, VTuple)) and all(isinstance(x, VStr) for x in v.items):
                 if not v.items:
                     return VStr('')
                 out = v.items[0].t
